@@ -185,6 +185,9 @@ open_("C20", "D53", "C20/edited-file-not-recorded-in-its-repository@nested-repo"
 open_("C11", "D8", "C11/not-serializable@overlapping-journal-windows", [],
       "schedule: two `git-ai checkpoint` processes (agents S1 on a.txt, S2 on b.txt) both pass their read of .git/ai/working_logs/<HEAD>/checkpoints.jsonl before either writes it back (append_checkpoint and post-commit read-modify-write the journal with no lock) => the later write drops the other record and that agent's line is committed as human; identified by call site: a non-serializable outcome whose schedule has two lost-update windows of the unchanged code overlapping (agent report: entering append_checkpoint .. its journal write; git command: first journal read .. exit) is counted as this finding",
       "c11.two_checkpoints_both_read_before_either_writes", [])
+open_("C11", "D74", "C11/not-serializable@report-straddles-git-command", [],
+      "schedule: S1's reported line in a.txt is pending; `git-ai checkpoint` for b.txt (agent S2) starts and reads the journal - its list of files to re-examine includes a.txt; `git stash push -- a.txt` then runs to completion (attribution of a.txt goes into the stash note, its entries leave the working log, the file is reverted); the report continues, finds a.txt without agent lines and appends an empty entry for it, which later shadows what `git stash pop` restores => S1's line is committed as human (likewise around `reset --soft` and `commit --amend`: operations that rewrite the working log without moving HEAD); identified by call site: a non-serializable outcome whose schedule shows a git command exiting between an agent report's first journal read and its `append_checkpoint` (same missing mutual exclusion as D8; when HEAD moves in between it is D45)",
+      "c11.report_read_before_stash_appended_after", [])
 open_("C11", "D45", "C11/not-serializable@stale-base-append", [],
       "schedule: `git-ai checkpoint` for b.txt starts (resolves HEAD) while `git commit` of a.txt is still running and performs its journal append only after the commit process exits => the record lands in working_logs/<old HEAD>, which nothing reads again; S2's line is committed as human; identified by call site: non-serializable outcome, no overlapping windows, and the trace shows a checkpoints_write into the working log of a commit that is not HEAD",
       "c11.checkpoint_started_before_commit_lands_after", [])
